@@ -43,6 +43,10 @@ type Case struct {
 	Order     int   // 0 index-sorted (as annotation emits), 1 time-sorted, 2 as drawn (shuffled)
 	QZone     int   // location of the query times: 0 UTC, 1 +01:00, 2 a zero-offset fixed zone, 3 -05:30 (same instants)
 	UZone     int   // location of the update timestamps
+	// OwnTime: the parent's own time, which neither operation consults:
+	// 0 zero; 1 Timestamp = OwnTS; 2 Committed = OwnTS and Timestamp a minute earlier.
+	OwnTime int
+	OwnTS   int64
 }
 
 var base = time.Date(2015, 3, 1, 12, 0, 0, 0, time.UTC)
@@ -60,6 +64,14 @@ func (c *Case) way() *osm.Way {
 		w.Nodes = append(w.Nodes, osm.WayNode{ID: osm.NodeID(100 + i), Version: ch.Version, ChangesetID: osm.ChangesetID(ch.CS), Lat: ch.Lat, Lon: ch.Lon})
 	}
 	w.Updates = c.updates()
+	switch c.OwnTime {
+	case 1:
+		w.Timestamp = at(c.OwnTS)
+	case 2:
+		cm := at(c.OwnTS)
+		w.Committed = &cm
+		w.Timestamp = cm.Add(-time.Minute)
+	}
 	return w
 }
 
@@ -69,6 +81,14 @@ func (c *Case) relation() *osm.Relation {
 		r.Members = append(r.Members, osm.Member{Type: osm.TypeWay, Ref: int64(200 + i), Role: "outer", Version: ch.Version, ChangesetID: osm.ChangesetID(ch.CS), Lat: ch.Lat, Lon: ch.Lon, Orientation: orb.Orientation(ch.Orientation)})
 	}
 	r.Updates = c.updates()
+	switch c.OwnTime {
+	case 1:
+		r.Timestamp = at(c.OwnTS)
+	case 2:
+		cm := at(c.OwnTS)
+		r.Committed = &cm
+		r.Timestamp = cm.Add(-time.Minute)
+	}
 	return r
 }
 
@@ -357,7 +377,7 @@ func TestUpdates(t *testing.T) {
 	})
 	harness.Run(t, harness.Spec[Case]{
 		Name: "updates", N: 30000,
-		Rule: "ways and relations with 0..8 children and 0..20 updates stored index-sorted (as annotation emits), time-sorted or shuffled; indices in range or (15% of cases) one beyond the list - by 0..2, or far beyond around 2^31, 2^32 (+ a valid index), 2^40, MaxInt64; one update in eight listed twice in a row; equal timestamps, half-second offsets; Reverse flags on relation members; times t and t1<=t2 on and off the update timestamps; 60% of the ways fully annotated for the geometry clause; oracle = a reference apply written in the harness (exact children, pending list in original order, typed out-of-range error), apply(t1);apply(t2)==apply(t2) when each child's updates are time-ordered, Updates.UpTo == filter, LineStringAt(t) == LineString() of a copy updated to t (a struct copy with its own node list that shares the update list; the original must stay as it was); non-trivial = the stored list has an update later than t before one that is due",
+		Rule: "ways and relations with 0..8 children and 0..20 updates stored index-sorted (as annotation emits), time-sorted or shuffled; indices in range or (15% of cases) one beyond the list - by 0..2, or far beyond around 2^31, 2^32 (+ a valid index), 2^40, MaxInt64; one update in eight listed twice in a row; equal timestamps, half-second offsets; Reverse flags on relation members; times t and t1<=t2 on and off the update timestamps; the parent's own timestamp / commit time zero, before, between or after them; 60% of the ways fully annotated for the geometry clause; oracle = a reference apply written in the harness (exact children, pending list in original order, typed out-of-range error), apply(t1);apply(t2)==apply(t2) when each child's updates are time-ordered, Updates.UpTo == filter, LineStringAt(t) == LineString() of a copy updated to t (a struct copy with its own node list that shares the update list; the original must stay as it was); non-trivial = the stored list has an update later than t before one that is due",
 		Gen: func(t *rapid.T) Case {
 			c := Case{IsWay: rapid.IntRange(0, 2).Draw(t, "way") != 0, Order: rapid.SampledFrom([]int{0, 0, 0, 2, 2, 1}).Draw(t, "order")}
 			full := rapid.IntRange(0, 9).Draw(t, "full") < 6
@@ -422,6 +442,8 @@ func TestUpdates(t *testing.T) {
 			c.QZone = rapid.SampledFrom([]int{0, 0, 1, 2, 3}).Draw(t, "qzone")
 			c.UZone = rapid.SampledFrom([]int{0, 0, 0, 1, 2}).Draw(t, "uzone")
 			c.T2 = c.T1 + int64(rapid.IntRange(0, 20).Draw(t, "dt"))
+			c.OwnTime = rapid.SampledFrom([]int{0, 0, 1, 2}).Draw(t, "ownTime")
+			c.OwnTS = int64(rapid.IntRange(-2, 30).Draw(t, "ownTS"))
 			return c
 		},
 		Check:    check,
